@@ -333,3 +333,12 @@ def run(ctx):
 
     r = ctx.rule("R6", "the GPU (WGSL) interval operations are enclosures: bound selection, corner products / quotients, domain guards, choices", 27)
     ctx.guarded(r, WR.r_interval_ops)
+    from .. import a64checks as XC
+
+    r = ctx.rule("R3f", "aarch64 interval assembler: write discipline, hazards, branch targets, call helpers, frame, choice protocol", 28 + 29 + 12 + 2 + 1 + 28)
+    ctx.guarded(r, XC.check_write_discipline, "interval")
+    ctx.guarded(r, XC.check_hazards, "interval")
+    ctx.guarded(r, XC.check_branches, "interval")
+    ctx.guarded(r, XC.check_call_helpers, "interval")
+    ctx.guarded(r, XC.check_frame, "interval")
+    ctx.guarded(r, XC.check_choice_protocol, "interval")
